@@ -329,8 +329,20 @@ func init() {
 				for d, v := range al[rng.Intn(len(al))].with {
 					p[d] = v
 				}
+				// sometimes trade one real dimension for an unknown one (right arity, wrong names), with the
+				// value an absent map entry reads as
+				if rng.Chance(40) {
+					for d := range p {
+						delete(p, d)
+						p[sx.Pick(rng, []string{"bogus", "zz", "os "})] = sx.Pick(rng, []string{"", "a"})
+						break
+					}
+				}
 			}
-			c11one(c11matrix{setup: su, adjs: al}, p)
+			// Go ranges over the permutation map in random order: repeat the call
+			for rep := 0; rep < 4; rep++ {
+				c11one(c11matrix{setup: su, adjs: al}, p)
+			}
 		}
 	}
 }
